@@ -445,7 +445,7 @@ def polygon(rng, n, kind="star", snap=8, scale=64.0):
 def lattice_cells(nx, ny, kind="square", w=8.0, h=8.0):
     """axis-aligned lattices built directly (not through Qhull).
     square: nx x ny squares (4-fold junctions); brick: rows of w x h bricks, odd rows shifted by w/2
-    (T-junctions).  returns (corners array, [(site idx, [corner ids CCW])], sites array)"""
+    (T-junctions); mixed: squares with the last row shifted (4-fold junctions below, T-junctions under the last row).  returns (corners array, [(site idx, [corner ids CCW])], sites array)"""
     cid_of = {}
     corners = []
 
@@ -458,7 +458,7 @@ def lattice_cells(nx, ny, kind="square", w=8.0, h=8.0):
 
     rects = []
     for j in range(ny):
-        off = (w / 2 if (kind == "brick" and j % 2 == 1) else 0.0)
+        off = (w / 2 if (kind == "brick" and j % 2 == 1) or (kind == "mixed" and j == ny - 1) else 0.0)   # mixed: only the last row is shifted
         for i in range(nx):
             rects.append((off + i * w, j * h, off + (i + 1) * w, (j + 1) * h))
     xs_at_y = {}
@@ -548,6 +548,12 @@ def series(rng, base, nframes, field="random", amp_frac=0.3, snap=8, renumber=Tr
                 tvec = rng.uniform(-0.3, 0.3, size=2) * amp
                 for k in cur:
                     cur[k] = centre + A @ (cur[k] - centre) + tvec
+            elif field == "grow":
+                # growth: uniform stretch along x about the current centre by 9.5 % per step - inside the 10 % shape bound of every pair of
+                # consecutive frames (measured with that pair's own extent), while the extent itself grows along the series
+                c0 = np.array(list(cur.values())).mean(axis=0)
+                for k in cur:
+                    cur[k] = c0 + np.array([1.095, 1.0]) * (cur[k] - c0)
             else:  # flowing: rotation-like flow
                 w = rng.uniform(-1, 1) * amp / extent
                 for k in cur:
